@@ -937,8 +937,9 @@ class Ctl(Harness):
             tgt = o["target"] if o["target"] is not None else -INF      # the documented default
 
             def t_target(k):
-                if not has_fun:
-                    return False
+                # (without an objective function the objective is the constant 0, which is what the result reports:
+                # a supplied target >= 0 is then a request that every feasible point satisfies, next to the
+                # feasibility request)
                 return b_and(lift(fvals[k]) <= tgt, lift(vvals[k]) <= tol)
 
             def t_feas(k):
